@@ -20,10 +20,10 @@ CHECKS = {
  "C06": ("deterministic simulation: balance probes on evolving multi-tip/truncated ledgers bracketed by equal snapshots + reference set {f(tip)}",
          "Every balance answer (all wallets, node wallets, a stranger) is compared with the set of exact values checkpoint+in-out over each tip's live ancestry; errors are accepted only where the reference is negative or not representable; queries must not change the ledger; nodes with equal ledgers must agree.",
          "the checkpoint term is the node's stored funds (their correctness is C07)", "5 C06"),
- "C07": ("deterministic simulation with the truncateDiff knob lowered per run: synchronous truncation at seeded points, repeated, with racing admissions; before/after differential",
-         "Truncation is triggered through the hook on ledgers of 5-40 vertices with truncateDiff 2-12: nothing confirmed may be lost or change content, by-hash reads must return identical content, the moved set must be ancestor-closed, checkpoint funds must equal the net flow of the stored vertices, balances must not change, re-submission must be refused without effect, a failed truncation must change nothing.",
+ "C07": ("deterministic simulation with the truncateDiff knob lowered per run: synchronous truncation at seeded points and the real weight-triggered truncation loop (threshold knob), repeated, racing with proposals and gossip; free-text receiver addresses; before/after differential plus always-on snapshot invariants",
+         "Truncation is triggered through the hook and, in a third of the truncating runs, by the real runTruncate loop (half of those without any hook trigger) on ledgers of 5-60 vertices with truncateDiff 2-12: nothing confirmed may be lost or change content, by-hash reads must return identical content, the moved set must be ancestor-closed, checkpoint funds must equal the net flow of the stored vertices, balances must not change, re-submission must be refused without effect, a failed truncation must change nothing.",
          "clauses that assume isolation are judged only when nothing else was admitted in the window; ledgers already overdrawn by the C02 finding or the trusted exemption are excluded from the funds/balance clauses", "5 C07"),
- "C08": ("deterministic simulation, fine mode: seeded interleavings of walker vs consumer, counting contexts cancelling after k ancestors, stream consumers racing writers; bounded-progress and leaked-task oracle",
+ "C08": ("deterministic simulation, fine mode: seeded interleavings of walker vs consumer, counting contexts cancelling after k ancestors, stream consumers racing writers, bursts of concurrent admissions against the truncation loop with a shortened signal channel (knob); bounded-progress, leaked-task and fatal-log oracle",
          "Every operation must return within a simulated-time budget once faults stop, probe operations must still complete afterwards, and no task created inside the graph walker may be left parked. Lock acquisition is simulated (TryLock + parking, pending-writer model), so a wedge is a countable condition instead of a hang.",
          "lock model reproduces mutual exclusion and writer preference, not Go's starvation mode", "5 C08"),
  "C09": ("deterministic simulation: structural invariants of every snapshot of every run (acyclicity, edges vs declared parents, recomputed digests and signatures, weight rule)",
@@ -32,10 +32,10 @@ CHECKS = {
  "C10": ("deterministic simulation with byzantine proposers/peers: forbidden vertices through every entry point + snapshot scan",
          "Self-sealed, genesis-issued and empty transactions are offered by proposal (notary and ledger API), by gossip from an adversarial sealing key, and via the orphan path; no snapshot may contain them.",
          "", "5 C10"),
- "C04": ("deterministic simulation with an in-flight corruption fault: seeded mutations (41 classes) of freshly sealed valid vertices delivered to real nodes, genuine copy before/after/never",
+ "C04": ("deterministic simulation with an in-flight corruption fault: seeded mutations (41 classes) of freshly sealed valid vertices delivered to real nodes through the gossip entry point (genuine copy before/after/never) and, altered in transit, through the DAG sync stream",
          "Every delivered mutant whose decoded content differs from the genuine vertex must be refused by the gossip-add entry point, must leave the ledger unchanged and must never appear in a later snapshot; the genuine copy must still be admitted afterwards; about 60 corrupted or malformed addresses per wallet must resolve to an error or the same key. Three admitted classes are recorded known findings.",
          "the quantifier is over inputs; the simulator contributes the stateful context (genuine copy admitted, parked, or arriving later) ", "5 C04"),
- "C17": ("deterministic simulation, fine mode: 2-5 client tasks interleaved at every bigcache call of the real cache + map model at quiescence + porcupine linearizability on short histories; sequential sequences with clock advances step by step",
+ "C17": ("deterministic simulation, fine mode: 2-5 client tasks interleaved at every bigcache call of the real cache + map model at quiescence + porcupine linearizability on short histories; sequential sequences with clock advances (listings compared after every step or only now and then), cached-balance calls with client-controlled key text",
          "The real Hippocampus on real bigcache is driven by seeded sequential sequences (compared with a map model after every operation, with the expiry window read from the code) and by concurrent client tasks whose interleaving at every cache call is chosen by the seed; listings at quiescence must equal saves minus removals, and histories of up to 14 operations must be linearizable.",
          "bigcache itself is not instrumented; expiry comparisons allow the documented slack", "5 C17"),
  "C19": ("deterministic simulation with clock-jump faults for encoder timestamps + seeded boundary product of field values through every crossing (wire, storage, cache)",
@@ -50,7 +50,7 @@ CHECKS = {
  "C16": ("deterministic simulation: seeded sequences of honest and dishonest notary clients on 1-3 nodes (fine-mode concurrent duplicates, clock jumps past challenge expiry) + reference notary state machine",
          "Every response is judged by a reference notary: data-carrying transactions may appear in a ledger only after a valid confirm or a receiver-signed reject, at most once; pure transfers only after a validly signed proposal; requests with invalid signatures must fail and change neither ledger nor awaiting lists; listings, history and balances are served only against proof of key ownership and contain only the caller's data.",
          "availability of honest reads (throttle) is reported, not required; expiry windows are read from the code", "5 C16"),
- "C11": ("deterministic simulation: connected topologies on 2-6 real gossip nodes over SimNet with seeded delay, reordering and duplication; per-item oracle over the network log and the per-node ledger-call log",
+ "C11": ("deterministic simulation: connected topologies on 2-6 real gossip nodes over SimNet with seeded delay, reordering and duplication (copies arriving together), handlers preempted inside in a share of runs, bursts of transactions from one origin; per-item oracle over the network log and the per-node ledger-call log",
          "Per injected item (vertex whose parents are admitted everywhere, or awaiting transaction): admitted by every node, at most once per node, forwarded only after the node's own acceptance, at most once per link (per suppression window for transactions), never sent to a node already listed with a valid signature, with at most sum-of-degrees messages. Labelled graphs on <=4 nodes are drawn by edge mask and delivery orders are sampled (their signatures are counted), not enumerated exhaustively. Dependent items in flight are a separate class whose non-delivery is a recorded known finding.",
          "request contexts are not cancelled on handler return (ctx_cancel_on_return off); loss is injected in a share of runs where only the safety half is judged", "5 C11"),
  "C12": ("deterministic simulation with a byzantine relay fault: forged gossiper lists (7 classes) spliced into the relay's outgoing gossip in the C11 network; C11 per-item oracle restricted to honest nodes + honest-path delivery",
@@ -59,8 +59,8 @@ CHECKS = {
  "C13": ("deterministic simulation: seeded permutations (with duplicates and invalid vertices) of a valid history delivered to a genesis-only node, real 2 s retry ticker on the simulated clock; differential against parents-first delivery to a second real node",
          "Children that arrive before their parents must be reported as such and parked; after the retries the node must hold exactly the ledger (vertices, parent links, index, balances) of a second real node fed the same history parents-first; invalid vertices must never be admitted through the retry path; the buffer bound must hold.",
          "history sizes stay inside the code's bounds (500 parked, 25 retries), which are read through the hook", "5 C13"),
- "C14": ("deterministic simulation of the real sync client over a SimNet stream with seeded stream faults (duplicate vertex, duplicate transaction, unknown parent, second self-sealed, empty transaction, cut), source ledgers of 0-130 vertices incl. multi-tip, truncated and still-busy sources",
-         "Clean streams: the joiner's vertices, parent links, index, genesis wallet and balances (tip by tip) must equal the peer's, and an identical follow-up gossip sequence (valid children, duplicates, overdrawing tips and their children, children of old tips) must be accepted and rejected alike by both. Corrupted streams: the joiner must stay unloaded and refuse proposals. Sync from a truncated peer is a recorded known finding.",
+ "C14": ("deterministic simulation of the real sync client over a SimNet stream with seeded stream faults (duplicate vertex, duplicate transaction, unknown parent - both or one, second self-sealed, empty transaction, cut), source ledgers of 0-130 vertices incl. multi-tip, truncated and still-busy sources",
+         "Clean streams: the joiner's vertices, parent links, index, genesis wallet and balances (tip by tip) must equal the peer's, and an identical follow-up gossip sequence (valid children, duplicates, overdrawing tips and their children, children of old tips, a late vertex on old parents merged with the tip) must be accepted and rejected alike by both. Corrupted streams: the joiner must stay unloaded and refuse proposals. Sync from a truncated peer is a recorded known finding.",
          "differentials are judged only when the makers went quiet; a source that moved during the stream is compared only if the joiner caught up", "5 C14"),
  "C18": ("deterministic simulation in a -race build: seeded concurrent workload over a loaded node's API and background loops, interleaved by the slot scheduler (task switches are fake-clock sleeps, which create no happens-before edge); oracle = Go race detector reports whose access sites lie in the repository",
          "2-4 proposers, gossip adds (valid, orphan, invalid), readers, a DAG stream consumer that sometimes abandons the stream, truncation and orphan retries run concurrently against one loaded node while its real retry ticker and truncation loop run; the seed decides the interleaving at every instrumented point. Each distinct unordered pair of repository access sites reported by the race detector is a violation with the seed as replay; reports with a site in the harness or the hook files are the machinery's own and are excluded (counted).",
